@@ -67,13 +67,16 @@ Fixpoint insert_sorted (x : bytes) (l : list bytes) : list bytes :=
 (* ---- file splitting ---- *)
 (* bufio.Scanner with ScanLines: split on \n, drop one trailing \r per line,
    a final line without newline counts, an empty final line does not *)
+(* list reversal in linear time (List.rev is quadratic when run); frev l = rev l is List.rev_alt *)
+Definition frev {A} (l : list A) : list A := rev_append l [].
+(* cur: the bytes of the line being read, latest first (linear time on long lines) *)
 Fixpoint split_lines_go (s : bytes) (cur : bytes) : list bytes :=
   match s with
-  | [] => match cur with [] => [] | _ => [cur] end
-  | c :: r => if c =? 10 then cur :: split_lines_go r [] else split_lines_go r (cur ++ [c])
+  | [] => match cur with [] => [] | _ => [frev cur] end
+  | c :: r => if c =? 10 then frev cur :: split_lines_go r [] else split_lines_go r (c :: cur)
   end.
 Definition drop_cr (l : bytes) : bytes :=
-  match rev l with 13 :: r => rev r | _ => l end.
+  match frev l with 13 :: r => frev r | _ => l end.
 Definition split_lines (s : bytes) : list bytes := map drop_cr (split_lines_go s []).
 
 (* strings.Fields for ASCII input: split on \t \n \v \f \r and space *)
